@@ -467,7 +467,24 @@ func (fr *Frame) modularCall(fc *FuncContract, callee *ssa.Function, c *ssa.Call
 	}
 	for i := 0; i < nres; i++ {
 		rt := sig.Results().At(i).Type()
-		res[i] = fr.freshTyped("res:"+shortCallee(fc.Name), rt, st, pc)
+		if fc.Deterministic && scalarArgs(args) {
+			var as, ss []string
+			for _, a := range args {
+				as = append(as, a.S)
+				ss = append(ss, a.Sort)
+			}
+			fname := quote(fmt.Sprintf("det:%s.%s#%d", fc.Pkg, fc.Name, i))
+			rs := vc.sortOf(rt)
+			vc.declare("det:"+fname, fmt.Sprintf("(declare-fun %s (%s) %s)", fname, strings.Join(ss, " "), rs))
+			app := Term{"(" + fname + " " + strings.Join(as, " ") + ")", rs}
+			if len(as) == 0 {
+				app = Term{fname, rs}
+			}
+			res[i] = vc.def("res:"+shortCallee(fc.Name), app)
+			vc.assume(pc, vc.typeFacts(res[i], rt, st.wm))
+		} else {
+			res[i] = fr.freshTyped("res:"+shortCallee(fc.Name), rt, st, pc)
+		}
 		post.vars[fmt.Sprintf("result%d", i)] = TV{res[i], rt}
 		if n := sig.Results().At(i).Name(); n != "" && n != "_" {
 			post.vars[n] = TV{res[i], rt}
@@ -485,10 +502,21 @@ func (fr *Frame) modularCall(fc *FuncContract, callee *ssa.Function, c *ssa.Call
 			if ref.Sort == SSlice {
 				ref = sBase(ref)
 			}
-			vc.assume(pc, and(le(pre.wm, ref), lt(ref, st.wm)))
+			// a fresh result is nil or was allocated by the call
+			vc.assume(pc, or(eq(ref, tZero), and(le(pre.wm, ref), lt(ref, st.wm))))
 		}
 	}
 	return res
+}
+
+// scalarArgs reports whether all arguments are heap-independent values.
+func scalarArgs(args []Term) bool {
+	for _, a := range args {
+		if a.Sort != SInt && a.Sort != SBool && a.Sort != SStr {
+			return false
+		}
+	}
+	return true
 }
 
 func calleeParamNames(fc *FuncContract, callee *ssa.Function, c *ssa.CallCommon, sig *types.Signature) []string {
